@@ -171,8 +171,27 @@ impl AbsKytea {
         }
         out.extend((nodes.len() as u32).to_le_bytes());
         let key_chars: Vec<Vec<char>> = keys.iter().map(|k| k.chars().collect()).collect();
+        // in files with content in the ignored parts the states are also stored in another order than they were created in
+        // (a child may come before its parent; the root stays state 0): the reader must follow the stored indices
+        let n_nodes = nodes.len();
+        let mut order: Vec<usize> = (0..n_nodes).collect();
+        if inherit && n_nodes > 2 {
+            let mut x = self.junk ^ (n_nodes as u64).wrapping_mul(0x9E3779B97F4A7C15);
+            for i in (2..n_nodes).rev() {
+                x ^= x << 13;
+                x ^= x >> 7;
+                x ^= x << 17;
+                let j = 1 + (x as usize) % i;
+                order.swap(i, j);
+            }
+        }
+        let mut new_index = vec![0usize; n_nodes];
+        for (pos, &old) in order.iter().enumerate() {
+            new_index[old] = pos;
+        }
         let texts: Vec<Vec<char>> = nodes.iter().map(|n| n.text.clone()).collect();
-        for node in &nodes {
+        for &oi in &order {
+            let node = &nodes[oi];
             // inherited outputs and failure link (longest proper suffix that is a state)
             let mut inherited: Vec<u32> = vec![];
             let mut failure = 0u32;
@@ -181,7 +200,7 @@ impl AbsKytea {
                     let suf = &node.text[start..];
                     if failure == 0 {
                         if let Some(i) = texts.iter().position(|t| t.as_slice() == suf) {
-                            failure = i as u32;
+                            failure = new_index[i] as u32;
                         }
                     }
                     if let Some(e) = key_chars.iter().position(|k| k.as_slice() == suf) {
@@ -194,7 +213,7 @@ impl AbsKytea {
                 out.extend((node.children.len() as u32).to_le_bytes());
                 for (c, n) in node.children.iter().rev() {
                     out.extend(self.cidx(*c).to_le_bytes());
-                    out.extend((*n as u32).to_le_bytes());
+                    out.extend((new_index[*n] as u32).to_le_bytes());
                 }
                 let own: Vec<u32> = node.entry.iter().map(|&e| e as u32).collect();
                 out.extend(((own.len() + inherited.len()) as u32).to_le_bytes());
